@@ -13,6 +13,7 @@ package multiplex
 //   <id> PRIM salsa <key> <nonce8> <data>               -> <id> <out>
 //   <id> PRIM chachapoly|gcm <key> <nonce12> <pt> <aad> -> <id> <sealed>
 //   <id> PRIMOPEN chachapoly|gcm <key> <nonce12> <ct> <aad> -> <id> <pt> | fail
+//   <id> SESS ...  real Sessions with a configured MsgOnWireSizeLimit: see c04_sess_test.go
 
 import (
 	"crypto/aes"
@@ -262,6 +263,15 @@ func TestVerifC04(t *testing.T) {
 				continue
 			}
 			fmt.Fprintf(w, "%s %s\n", id, c04Decode(&o, vfUnhex(fs[4]), " "))
+		case "SESS":
+			func() {
+				defer func() {
+					if r := recover(); r != nil {
+						fmt.Fprintf(w, "%s cfg=panic:%s\n", id, strings.ReplaceAll(fmt.Sprint(r), " ", "_"))
+					}
+				}()
+				fmt.Fprintf(w, "%s %s\n", id, c04Sess(fs))
+			}()
 		case "PRIM", "PRIMOPEN":
 			key := vfUnhex(fs[3])
 			nonce := vfUnhex(fs[4])
